@@ -250,12 +250,14 @@ def St.updateRootAll : Nat → List Nat → Nat → St → St
     St.updateRootAll fuel ((s1.comp x).children ++ rest) root s1
 
 /-- the precondition the property puts on `register(c, p)`: `c` is a detached root with no
-    unregistration pending and `p` lies outside `c`'s subtree (`p.root ≠ c`); self-registration
-    (`p = c`) is the degenerate case the code allows.  The model refuses anything else
+    unregistration pending and `p` lies outside `c`'s subtree (`p.root ≠ c`), and not both trees
+    are being executed (the code raises UnregistrableError then); self-registration (`p = c`) of a
+    detached component is the degenerate case the code allows.  The model refuses anything else
     (`Exn.inadmissible`): such histories are outside the quantifier. -/
 def St.admissible (s : St) (c p : Nat) : Bool :=
-  c < s.comps.length && p < s.comps.length &&
-  (p == c || ((s.comp c).parent == c && !(s.comp c).pending && (s.comp p).root != c))
+  c < s.comps.length && p < s.comps.length && (s.comp c).parent == c &&
+  (p == c || (!(s.comp c).pending && (s.comp p).root != c &&
+              !((s.comp c).executing && (s.comp (s.comp p).root).executing)))
 
 /-- the tail of `register`: `self.fire(registered(self, parent))` -/
 def St.registerFin (s : St) (c : Nat) : St :=
